@@ -25,7 +25,7 @@ from props import c07 as G
 ID = "C18"
 PROP_FILES = ["Props/C18.v"]
 RUN_FILES = ["Run/C18Run.v"]
-RULE = ("(a) seeded nestings (depth <= 6, <= 40 nodes) of the three context managers over 6 deferred objects with reports, not_ready(), returns, "
+RULE = ("(a) seeded nestings (depth <= 6, <= 40 nodes) of the three context managers over 6 deferred objects with reports, not_ready(), reads of is_awaiting, returns, "
         "calls and raises of 9 exception classes, from depth 0 or a positive start depth; (b) seeded histories of 0-50 assemblies drawn from valid "
         "programs, programs with 1-3 planted faults (parse/compile/evaluation time), programs that crash the assembler (RecursionError while parsing "
         "and while evaluating, TypeError in the string-escape parser), assemblies interrupted by an exception injected at a random function call, "
@@ -81,6 +81,8 @@ def prog_term(p):
         return f"(PReport {dict(E='PError', C='PCritical', W='PWarning')[p[1]]} {prog_term(p[2])})"
     if k == "call":
         return f"(PCall {prog_term(p[1])} {prog_term(p[2])})"
+    if k == "ifaw":
+        return f"(PIfAwaiting {p[1]} {prog_term(p[2])} {prog_term(p[3])})"
     cm = p[1]
     if cm[0] == "try":
         c = "CTry"
@@ -111,6 +113,8 @@ def gen_prog(rng, depth, budget, hcount):
         return ("rep", rng.choice("EWWC"), gen_prog(rng, depth, budget, hcount))
     if r < 0.55:
         return ("call", gen_prog(rng, depth - 1, budget, hcount), gen_prog(rng, depth, budget, hcount))
+    if r < 0.62:
+        return ("ifaw", rng.randrange(6), gen_prog(rng, depth - 1, budget, hcount), gen_prog(rng, depth - 1, budget, hcount))
     k = rng.random()
     if k < 0.35:
         cm = ("try",)
@@ -181,6 +185,8 @@ def run_nest(p, depth0, nids):
         if k == "call":
             run(p[1])
             return run(p[2])
+        if k == "ifaw":
+            return run(p[2]) if defs[p[1]].is_awaiting else run(p[3])
         with make_cm(p[1]):
             r = run(p[2])
             if r == "return":
@@ -232,7 +238,8 @@ def nest_part(rep, rng, n):
               (("with", ("handle", 6, ("raises", ("other", 2))), ("rep", "E", ("end",)), ("end",)), 0, 7),
               (("with", ("handle", 6, ("returns", True)), ("rep", "C", ("end",)), ("rep", "W", ("end",))), 0, 7),
               (("with", ("try",), ("nr", ("end",)), ("nr", ("end",))), 0, 6),
-              (("rep", "E", ("end",)), 0, 6)]
+              (("rep", "E", ("end",)), 0, 6),
+              (("with", ("await", 2), ("ifaw", 2, ("with", ("try",), ("raise", "cycle"), ("ret",)), ("raise", "assert")), ("end",)), 0, 6)]
     terms, obs = [], []
     b = lambda x: "true" if x else "false"
     for p, d0, nids in cases:
